@@ -214,4 +214,25 @@ def run(repo='/repo', tier='quick'):
             res.check(ok, 'C10.e', '%s:%s:previous-chain-destroyed' % (fname, fld), 'a previous chain is destroyed before a new one is stored',
                       'a new decompressor chain overwrites %s without destroying the previous one (leak per message)' % fld, w['loc'])
     res.assumptions.append('steady-state heap size after N transactions is a run-time quantity and is not decided; what is decided is that every cap the bound relies on is in force on all paths')
+    # ---------------- C10.f reclamation of finished transactions does not depend on the response cursor
+    res.rule('C10.f', 'htp_connp_tx_freed() shifts every leading NULL slot off the transaction list: the conditions inside its loop read only the loop counter against the size and the front slot itself')
+    ff = db.get('htp_connp_tx_freed')
+    front = P.local_init_from(ff, lambda e: e is not None and e.get('k') == 'call' and e.get('callee') == 'htp_list_array_get')
+    lp = C.loops(ff)
+    if not lp or not front:
+        raise AnalysisBroken('C10.f: the reclaim loop of htp_connp_tx_freed was not found')
+    h, body = max(lp, key=lambda hb: len(hb[1]))
+    alien = []
+    ncond = 0
+    for b in body:
+        c = ff.cond_of(b)
+        if not c:
+            continue
+        ncond += 1
+        vs = {v['name'] for v in nodes(c[0], lambda y: y.get('k') == 'var')}
+        ms = [m for m in nodes(c[0], lambda y: y.get('k') == 'member')]
+        if ms or not vs:
+            alien.append(c[0])
+    res.check(not alien and ncond >= 2, 'C10.f', 'htp_connp_tx_freed:loop-conditions', 'the %d loop conditions read only locals (counter, size, front slot)' % ncond,
+              'the reclaim loop of htp_connp_tx_freed also depends on %s: leading NULL slots are left in place when that condition fails (in hybrid mode the response cursor never moves), the list never shrinks and every later removal walks the dead slots' % (S(alien[0])[:60] if alien else '?'), (alien[0]['loc'] if alien else ff.loc))
     return res
